@@ -290,7 +290,7 @@ func main() {
 		lv = sqlgen.Thorough
 	}
 
-	r.Rule(fmt.Sprintf("every statement of the rt/sqlgen grammar families: expression shapes to depth %d over %d operator/function forms in a SELECT column; SELECT/INSERT/UPDATE/DELETE/CREATE/ALTER/DROP skeletons with at most %d clause options away from the default; every expression position x %d subquery forms; literal/identifier/comment spellings; all transaction-control spellings. Each is parsed and formatted as SQLite and PostgreSQL; original and reformatted SQLite text run on identical private databases when SQLite accepts the original. distinct = statement text", lv.ExprDepth, sqlgen.NumForms(), lv.Options, sqlgen.NumSubforms()))
+	r.Rule(fmt.Sprintf("every statement of the rt/sqlgen grammar families: expression shapes to depth %d over %d operator/function forms in a SELECT column; SELECT/INSERT/UPDATE/DELETE/CREATE/ALTER/DROP skeletons with at most %d clause options away from the default; every expression position x %d subquery forms; the CTE scoping shapes (a WITH reusing a real table's name); literal/identifier/comment spellings; all transaction-control spellings. Each is parsed and formatted as SQLite and PostgreSQL; original and reformatted SQLite text run on identical private databases when SQLite accepts the original. distinct = statement text", lv.ExprDepth, sqlgen.NumForms(), lv.Options, sqlgen.NumSubforms()))
 	r.Assume(
 		"SQLite (modernc.org/sqlite, the driver ego uses) is the execution reference; PostgreSQL-dialect text is checked for re-parse, tree equality and idempotence only",
 		"a statement SQLite itself rejects at prepare time (EXPLAIN fails) is not executed: the statement demands execution equivalence only where the dialect allows",
